@@ -240,6 +240,65 @@ def run(ctx):
     ctx.floor("R5", nf, 20, "array-valued fields")
     check_validate_shape(ctx, "R5")
     check_line_counter(ctx)
+    check_parallel_lists(ctx)
+
+
+def check_parallel_lists(ctx):
+    """R7: the per-record lists a loader fills in one loop grow together.
+
+    In every loop of a loader-reachable function, local lists appended under the same chain of guards form a record
+    group (atnums, atcoords, occupancies... of one ATOM line).  A list whose every append sits under a strict
+    extension of the guard chain of a group with at least two other members can end up shorter than its siblings,
+    and the arrays built from them then disagree on the number of records.
+    """
+    prog = ctx.prog
+    ctx.rule("R7", "per-record lists filled in one loop are appended under the same conditions", "arrays of one record type come out with different lengths (inconsistent shapes in the result)")
+    roots = []
+    for short in prog.format_modules():
+        for op in ("load_one", "load_many"):
+            g = prog.format_op(short, op)
+            if g:
+                roots.append(g)
+    ngroups = 0
+    for f in prog.callees_closure(roots):
+        pm = prog.parents(f)
+        loops = {}
+        for n in f.own_nodes():
+            if isinstance(n, ast.Call) and isinstance(n.func, ast.Attribute) and n.func.attr == "append" and isinstance(n.func.value, ast.Name) and n.func.value.id in f.locals:
+                cur, conds, loop = n, [], None
+                while id(cur) in pm:
+                    p = pm[id(cur)]
+                    if isinstance(p, (ast.For, ast.While)) and any(cur is b for b in p.body):
+                        loop = p
+                        break
+                    if isinstance(p, ast.If):
+                        conds.append((any(cur is b for b in p.body), id(p)))
+                    elif isinstance(p, (ast.For, ast.While, ast.Try, ast.With)):
+                        conds.append((True, id(p)))
+                    cur = p
+                if loop is not None:
+                    loops.setdefault(id(loop), (loop, {}))[1].setdefault(n.func.value.id, []).append((tuple(reversed(conds)), n))
+        for loop, lists in loops.values():
+            chains = {}
+            for name, apps in lists.items():
+                cs = {c for c, _ in apps}
+                if len(cs) == 1:
+                    chains.setdefault(next(iter(cs)), []).append(name)
+            groups = {c: ns for c, ns in chains.items() if len(ns) >= 2}
+            for c, ns in groups.items():
+                ngroups += 1
+                bad = []
+                for name, apps in lists.items():
+                    if name in ns:
+                        continue
+                    if all(len(c2) > len(c) and c2[: len(c)] == c for c2, _ in apps):
+                        bad.append((name, apps[0][1]))
+                if bad:
+                    for name, node in bad:
+                        ctx.violate("R7", f"`{name}` is appended only under an extra condition inside the record branch that appends {sorted(ns)} unconditionally: it can end up with fewer entries than its siblings", f, node)
+                else:
+                    ctx.ok("R7", f"{f.name}: record group {sorted(ns)[:6]}{'...' if len(ns) > 6 else ''} grows together", f"{f.module.relpath}:{loop.lineno}", sample=(ngroups % 5 == 1))
+    ctx.floor("R7", ngroups, 12, "record groups of parallel lists")
 
 
 def check_line_counter(ctx):
@@ -273,7 +332,15 @@ def check_line_counter(ctx):
         else:
             ctx.violate("R6", "push-back does not stack the line / __next__ does not pop the stack first", bk, bk.node, construct="push-back stack")
     init = lit_cls.methods.get("__init__")
-    if init is not None and any(isinstance(n, ast.Assign) and src_of(n.targets[0]) == "self.lineno" and isinstance(n.value, ast.Constant) and n.value.value == 0 for n in init.own_nodes()):
+    def _zero_assign(fn):
+        return fn is not None and any(isinstance(n, ast.Assign) and src_of(n.targets[0]) == "self.lineno" and isinstance(n.value, ast.Constant) and n.value.value == 0 and not isinstance(n.value.value, bool) for n in fn.own_nodes())
+
+    def _other_assign(fn):
+        return fn is not None and any(isinstance(n, ast.Assign) and src_of(n.targets[0]) == "self.lineno" and not (isinstance(n.value, ast.Constant) and n.value.value == 0) for n in fn.own_nodes())
+
+    class_zero = any((isinstance(st, ast.Assign) and any(isinstance(t, ast.Name) and t.id == "lineno" for t in st.targets) and isinstance(st.value, ast.Constant) and st.value.value == 0) or (isinstance(st, ast.AnnAssign) and isinstance(st.target, ast.Name) and st.target.id == "lineno" and isinstance(st.value, ast.Constant) and st.value.value == 0) for st in lit_cls.node.body)
+    starts_zero = (_zero_assign(init) or _zero_assign(lit_cls.methods.get("__enter__")) or class_zero) and not _other_assign(init) and not _other_assign(lit_cls.methods.get("__enter__"))
+    if starts_zero:
         ctx.ok("R6", "the counter starts at 0", f"{init.module.relpath}:{init.lineno}")
     else:
         ctx.violate("R6", "LineIterator.lineno does not start at 0", init, init.node if init else None, construct="lineno init")
